@@ -9,7 +9,7 @@ import xp
 
 TIERS = {
     "quick": dict(cfg="MC_Scalar_quick.cfg", sample=10, rnd=3000, timeout=900),
-    "thorough": dict(cfg="MC_Scalar_thorough.cfg", sample=25, rnd=40000, timeout=3000),
+    "thorough": dict(cfg="MC_Scalar_thorough.cfg", sample=25, rnd=150000, timeout=3000),
 }
 
 
